@@ -192,6 +192,22 @@ impl G {
                 if self.cfg.typename && chance(1, 10) {
                     parts.push("__typename".into());
                 }
+                // now and then the whole selection set (or its tail) comes through one fragment
+                if self.cfg.fragments && !parts.is_empty() && chance(1, 6) {
+                    let from = if chance(1, 2) { 0 } else { draw(parts.len() as u32) as usize };
+                    let inner = parts.split_off(from).join(" ");
+                    let wrapped = match draw(4) {
+                        0 => format!("... on {ty} {{ {inner} }}"),
+                        1 => format!("... {{ {inner} }}"),
+                        2 => format!("... on {ty} {{ ... {{ {inner} }} }}"),
+                        _ => {
+                            let name = format!("F{}", self.frags.len());
+                            self.frags.push(format!("fragment {name} on {ty} {{ {inner} }}"));
+                            format!("...{name}")
+                        }
+                    };
+                    parts.push(wrapped);
+                }
             }
         }
         parts.join(" ")
